@@ -216,7 +216,7 @@ bool decode_packet(mobilinkd::M17FrameDecoder::packet_buffer_t const& packet_seg
         }
         
         boost::crc_optimal<16, 0x1021, 0xFFFF, 0xFFFF, true, true> crc;
-        crc.process_bytes(&current_packet.front(), current_packet.size());
+        crc.process_bytes(current_packet.data(), current_packet.size());
         uint16_t checksum = crc.checksum();
 
         if (checksum == 0x0f47)
@@ -264,7 +264,7 @@ bool decode_full_packet(mobilinkd::M17FrameDecoder::packet_buffer_t const& packe
             current_packet.push_back(packet_segment[i]);
         }
 
-        std::cout.write((const char*)&current_packet.front(), current_packet.size());
+        std::cout.write((const char*)current_packet.data(), current_packet.size());
 
         return true;
     }
